@@ -671,6 +671,11 @@ def Shape.fs (s : Shape) (u : Rel → κ) : FS κ :=
                       (⟨.top, .outputDir⟩, Node.dir), (⟨.top, .report⟩, .file [.orig (u .report) { kind := .other }])]
       else [])
 
+/-- the budget of shape `s` in a folder where the user keeps files of their own next to tally's. The one such file a tally command
+    has an opinion about is `.gitignore` (`init` writes a starter one when there is none): here it is the user's, opaque content. -/
+def Shape.fsWith (s : Shape) (gitignore : Bool) (u : Rel → κ) : FS κ :=
+  s.fs u ++ optFile gitignore ⟨.top, .gitignore⟩ (.orig (u .gitignore) { kind := .other })
+
 /-- old-layout budgets for the layout migration -/
 structure LShape where
   data : Bool
